@@ -72,6 +72,7 @@ type LogSpec struct {
 type TxnSpec struct {
 	ID   int       `json:"id"`
 	Span int       `json:"span,omitempty"` // number of update indices covered (default 1)
+	Jump uint64    `json:"jump,omitempty"` // the limits start this far above the next update index (callers may use timestamps as indices)
 	Refs []RefSpec `json:"refs,omitempty"`
 	Logs []LogSpec `json:"logs,omitempty"`
 	// Bad marks a transaction generated to be rejected by the writer:
